@@ -456,10 +456,11 @@ func morassClient(sim *simrt.Sim, pl *MorassPlan, obs *morassObs, variant int) {
 		if cerr != nil && !pl.Tolerant {
 			fail("morass-error@CleanUp", "CleanUp failed: %v", cerr)
 		}
-		if cerr == nil {
-			if d := sorterDirs(obs.parent); len(d) != 0 {
-				fail("morass-residue@cleanup", "temporary directory still exists after CleanUp: %v", d)
-			}
+		// "After CleanUp ... the sorter's temporary directory no longer
+		// exists": whatever the history was and whatever CleanUp returns
+		// (removal itself is never made to fail)
+		if d := sorterDirs(obs.parent); len(d) != 0 {
+			fail("morass-residue@cleanup", "temporary directory still exists after CleanUp (which returned %v): %v", cerr, d)
 		}
 	}
 	obs.completed = true
@@ -522,7 +523,9 @@ func runMorass(t *testing.T, c *Case, o RunOpts) *Result {
 		total += len(cy.Keys)
 	}
 	obs := &morassObs{}
-	res := execSim(t, c, o, 6000+200*total, c.Prop != "C12", func(sim *simrt.Sim) func() {
+	// the happens-before monitor is on wherever there is a second goroutine
+	// (a sequential-mode sorter has none)
+	res := execSim(t, c, o, 6000+200*total, !pl.Concurrent && c.Prop != "C12", func(sim *simrt.Sim) func() {
 		sim.Client("caller", func() {
 			if pl.Twin {
 				// the same history on two sorters over look-alike element types
